@@ -6,7 +6,7 @@
    cfg   : entry, failStart, failShut, failClean (lists of step names), siteFails, startKind, cleanKind
    events: [ev |-> kind, n |-> name, k |-> kind of exception for *_fail events: "exc" | "base"]
      user callbacks   enter_begin/enter_done/enter_fail c   exit_begin/exit_done/exit_fail c
-                      call h / call_fail h                  (h = Rsu Rsh Rcl Ssu Ssh Scl)
+                      call h / call_fail h                  (h = Xsu Xsh Xcl, X = R S U)
      API results      setup ok|raised   site ok|raised   running ""   cleanup_call ""
                       cleanup ok|raised   result ok|raised   end ""
 
@@ -51,7 +51,7 @@ Apply(mm, e) ==
 
 MEntered(mm) == ToSet(mm.entered)
 MMissing(mm) == {c \in MEntered(mm) : Count(mm.exited, c) = 0}
-IsStart(x) == x[1] = "enter" \/ (x[1] = "call" /\ x[2] \in {"Rsu", "Ssu"})
+IsStart(x) == x[1] = "enter" \/ (x[1] = "call" /\ x[2] \in SuNames)
 MStartupFailed(mm) == \E x \in mm.failed : IsStart(x)
 MTeardownFailed(mm) == \E x \in mm.failed : ~IsStart(x)
 \* ... with an ordinary exception (ErrorsSurface and the RunApp shape are stated for those)
@@ -59,7 +59,7 @@ MStartupFailedExc(mm) == \E x \in mm.failed \ mm.soft : IsStart(x)
 MTeardownFailedExc(mm) == \E x \in mm.failed \ mm.soft : ~IsStart(x)
 MTeardownSeen(mm) == \E i \in 1..Len(mm.cbs) :
                         \/ mm.cbs[i][1] \in {"exit_begin"}
-                        \/ (mm.cbs[i][1] = "call" /\ mm.cbs[i][2] \notin {"Rsu", "Ssu"})
+                        \/ (mm.cbs[i][1] = "call" /\ mm.cbs[i][2] \notin SuNames)
 
 FinalClause(mm, c) ==
     LET owed == c.entry = "RunApp" \/ mm.cleanupCalled
@@ -77,7 +77,7 @@ FinalClause(mm, c) ==
                 /\ \E x \in mm.failed : x[1] = "call" /\ x[2] \in ShutSteps
             THEN "ShutdownHandlerErrorSkipsCleanup"
         ELSE IF ~MStartupFailed(mm) /\ miss \subseteq SubCtx
-                /\ \E x \in mm.failed : x[1] = "exit" \/ (x[1] = "call" /\ x[2] \in {"Rcl", "Scl"})
+                /\ \E x \in mm.failed : x[1] = "exit" \/ (x[1] = "call" /\ x[2] \in ClNames)
             THEN "CleanupErrorSkipsLaterExits"
         ELSE "ExactlyOnceIffStarted"
     ELSE IF MStartupFailedExc(mm) /\ ((runner /\ mm.setupRes # "raised") \/ (~runner /\ mm.result # "raised"))
